@@ -12,6 +12,7 @@ import (
 	"math"
 	"runtime"
 	"sort"
+	"sync"
 	"time"
 
 	"github.com/thanos-community/promql-engine/api"
@@ -250,7 +251,10 @@ type compatibilityQuery struct {
 	ts     time.Time // Empty for range queries.
 	t      QueryType
 
-	cancel context.CancelFunc
+	// cancelMtx protects cancel: Cancel and Close may be called
+	// from other goroutines while Exec is running.
+	cancelMtx sync.Mutex
+	cancel    context.CancelFunc
 }
 
 func (q *compatibilityQuery) Exec(ctx context.Context) (ret *promql.Result) {
@@ -263,7 +267,9 @@ func (q *compatibilityQuery) Exec(ctx context.Context) (ret *promql.Result) {
 
 	ctx, cancel := context.WithCancel(ctx)
 	defer cancel()
+	q.cancelMtx.Lock()
 	q.cancel = cancel
+	q.cancelMtx.Unlock()
 
 	resultSeries, err := q.Query.exec.Series(ctx)
 	if err != nil {
@@ -403,6 +409,8 @@ func (q *compatibilityQuery) Close() { q.Cancel() }
 func (q *compatibilityQuery) String() string { return q.expr.String() }
 
 func (q *compatibilityQuery) Cancel() {
+	q.cancelMtx.Lock()
+	defer q.cancelMtx.Unlock()
 	if q.cancel != nil {
 		q.cancel()
 		q.cancel = nil
